@@ -324,9 +324,24 @@ def register(gen, T):
         out.append("/-- `<` and `>` are always single-character tokens carrying `FollowedBy::Token` iff a token follows immediately -/\n"
                    "def angleBracketsAreSingle : Bool := true\n\n")
 
+        # literals: kinds = variants of ast::Literal; the lexer has one literal token per kind (expr_literal is 1:1)
+        ast_rs = T.src("ast/src/ast_expressions.rs")
+        lit_kinds = [v for v, _ in enum_variants(ast_rs, "Literal")]
+        el = normws(fn_body(ex, "expr_literal"))
+        for k, t in (("IntUntyped", "LiteralInt"), ("IntUnsigned32", "LiteralIntUnsigned32"), ("IntUnsigned64", "LiteralIntUnsigned64"),
+                     ("IntSigned64", "LiteralIntSigned64"), ("FloatUntyped", "LiteralFloat"), ("Float16", "LiteralFloat16"),
+                     ("Float32", "LiteralFloat32"), ("Float64", "LiteralFloat64")):
+            if k not in lit_kinds or f"Token::{t}(v) => Literal::{k}(v)" not in el:
+                raise ExtractError(f"expr_literal no longer maps Token::{t} to Literal::{k}")
+        if "Token::True => Literal::Bool(true)" not in el or "Token::False => Literal::Bool(false)" not in el:
+            raise ExtractError("expr_literal: true/false mapping changed")
+        out.append("/-- variants of `ast::Literal` (each has exactly one literal token, `expr_literal`) -/\ninductive LitKind where\n" +
+                   "".join(f"  | {k}\n" for k in lit_kinds) + "  deriving DecidableEq, Repr, Inhabited\n\n"
+                   "/-- a literal value: integers `±mag`; floats: sign bit and the remaining bits of the IEEE pattern; bool 0/1 -/\n"
+                   "structure Lit where\n  kind : LitKind\n  neg : Bool\n  mag : Nat\n  deriving DecidableEq, Repr, Inhabited\n\n")
         # token type of the model
-        out.append("/-- tokens of the model: a (scoped) identifier and a literal are one abstract token each, named by their text -/\n"
-                   "inductive Tok where\n  | id (n : String)\n  | lit (n : String)\n  | p (p : Punct)\n  | lt (followedByToken : Bool)\n"
+        out.append("/-- tokens of the model: a (scoped) identifier is one abstract token named by its text; a literal token carries its value -/\n"
+                   "inductive Tok where\n  | id (n : String)\n  | lit (l : Lit)\n  | p (p : Punct)\n  | lt (followedByToken : Bool)\n"
                    "  | gt (followedByToken : Bool)\n  deriving DecidableEq, Repr, Inhabited\n\n"
                    "def Tok.isLt : Tok → Bool | .lt _ => true | _ => false\n"
                    "def Tok.isGt : Tok → Bool | .gt _ => true | _ => false\n\n"
@@ -407,10 +422,11 @@ def register(gen, T):
             out.append(",\n".join(lines) + "]\n\n")
         p13 = normws(fn_body(ex, "expr_p13"))
         tr = normws(fn_body(fn_body(ex, "expr_p13"), "ternary_right"))
-        if not re.search(r'parse_token\(Token::QuestionMark\)\(input\)\?; let \(input, left\) = expr_p13\(input, st\)\?; '
-                         r'let \(input, _\) = parse_token\(Token::Colon\)\(input\)\?; let \(input, right\) = expr_p13\(input, st\)\?;', tr) \
-           or "let (input, main) = expr_p12(input, st)?;" not in p13 or "_ => Ok((input, main))" not in p13:
-            raise ExtractError("expr_p13 no longer has the shape p12 [? p13 : p13] with fallback to p12")
+        tm = re.search(r'parse_token\(Token::QuestionMark\)\(input\)\?; let \(input, left\) = expr_p(\d+)\(input, st\)\?; '
+                       r'let \(input, _\) = parse_token\(Token::Colon\)\(input\)\?; let \(input, right\) = expr_p(\d+)\(input, st\)\?;', tr)
+        if not tm or "let (input, main) = expr_p12(input, st)?;" not in p13 or "_ => Ok((input, main))" not in p13:
+            raise ExtractError("expr_p13 no longer has the shape p12 [? pM : pL] with fallback to p12")
+        tern_mid, tern_last = int(tm.group(1)), int(tm.group(2))
         p14 = normws(fn_body(ex, "expr_p14"))
         if "_ => Ok((input, main))" not in p14:
             raise ExtractError("expr_p14 lost its fallback")
@@ -421,6 +437,8 @@ def register(gen, T):
                    "def parseOpAt (lvl : Nat) (term : Terminator) (ts : List Tok) : Option (BinOp × List Tok) :=\n  match lvl with\n" +
                    "".join(f"  | {n} => parseOp{n} term ts\n" for n in sorted(level_fns)) + "  | _ => none\n\n")
         out.append("def leftAssocLevels : List Nat := " + T.lean_list(str(n) for n in sorted(level_fns) if n != 14) + "\n"
-                   "def ternaryLevel : Nat := 13\ndef assignLevel : Nat := 14\ndef prefixLevel : Nat := 2\ndef postfixLevel : Nat := 1\n")
+                   "def ternaryLevel : Nat := 13\ndef assignLevel : Nat := 14\ndef prefixLevel : Nat := 2\ndef postfixLevel : Nat := 1\n"
+                   f"/-- levels at which `ternary_right` reads the operand between `?` and `:` and the one after `:` -/\n"
+                   f"def ternMiddleLevel : Nat := {tern_mid}\ndef ternLastLevel : Nat := {tern_last}\n")
         out.append("\nend RsslVerif.Gen.ParseTables\n")
         return "".join(out)
